@@ -10,12 +10,12 @@ LFull == {L(4, <<0>>), L(4, <<1>>), L(4, <<2>>)}
    \cup {L(cs, <<>>) : cs \in 90..94}
    \cup {L(70, a) : a \in Near(1)} \cup {L(71, a) : a \in Near(2)} \cup {L(72, a) : a \in Near(3)} \cup {L(73, a) : a \in Near(3)} \cup {L(74, a) : a \in Near(4)} \cup {L(75, a) : a \in Near(4)}
    \cup {L(76, <<>>), L(0, <<>>), L(95, <<1, 2, 3>>)}
-   \cup {<<"nmt", 130>>, <<"nmt", 129>>, <<"nmt", 1>>, <<"nmt", 2>>, <<"nmt", 128>>}
+   \cup {<<"nmt", 130>>, <<"nmt", 129>>, <<"nmt", 1>>, <<"nmt", 2>>, <<"nmt", 128>>, <<"init">>, <<"bootup">>}
 LQuick == {L(4, <<0>>), L(4, <<1>>)}
    \cup {L(64, A(17)), L(64, A(18)), L(65, A(34)), L(65, A(33)), L(66, A(51)), L(67, A(68)), L(67, A(69))}
    \cup {L(19, <<0, 4>>), L(19, <<0, 5>>), L(19, <<1, 0>>), L(17, <<9>>), L(17, <<128>>), L(17, <<255>>), L(23, <<>>), L(90, <<>>), L(94, <<>>)}
    \cup {L(70, A(17)), L(71, A(34)), L(72, A(51)), L(72, A(52)), L(73, A(51)), L(73, A(50)), L(74, A(68)), L(75, A(68)), L(75, A(67))}
-   \cup {L(76, <<>>), L(95, <<1, 2, 3>>), <<"nmt", 130>>}
+   \cup {L(76, <<>>), L(95, <<1, 2, 3>>), <<"nmt", 130>>, <<"init">>, <<"bootup">>}
 \* probe: finish a selective sequence from wherever it is, then inquire everything, store, reset, boot-up id
 PL == << L(67, A(68)), L(75, A(68)), L(94, <<>>), L(4, <<1>>), L(90, <<>>), L(91, <<>>), L(92, <<>>), L(93, <<>>), L(94, <<>>), L(23, <<>>), L(76, <<>>), <<"sdoid", 5>>, <<"sdoid", 9>>, <<"nmt", 130>>, <<"sdoid", 5>>, <<"sdoid", 9>>, L(94, <<>>), L(4, <<1>>), L(94, <<>>) >>
 \* C20 (LSS part): reset in every state (also in the middle of a selective / identify sequence), then the REST of both
